@@ -157,6 +157,10 @@ def streams(ctx):
             for t in (mid - 600, mid + 600, mid + 3600, utc_mid - 600, utc_mid + 600, mid + 86400 - 600, mid + 86400 + 600):
                 for s in ("00:05", "12:00", "23:55"):
                     across.append((zone, float(t), s))
+            # the last second of a local day and the first of the next, to fractions of a second: the date is the clock's date, a
+            # reading of 23:59:59.7 is still today
+            for dt in (-1.0, -0.75, -0.5, -0.49, -0.25, -0.001, 0.0, 0.25, 0.5, 0.999):
+                across.append((zone, mid + dt, rng.choice(["00:00", "00:05", "12:00", "23:59"])))
     ctx.run_cases(RT, "one-process-across-local-and-utc-midnights", across, exhaustive=False, sample_every=max(1, len(across) // 2))
     mal = [(rng.choice(Z.ZONES), float(rng.randrange(1_700_000_000, 1_800_000_000)), s) for s in MALFORMED]
     alpha = "0123456789:: \tax-"
